@@ -678,4 +678,139 @@ theorem walk_skip_subtree (C : Cfg) (inp : Input) (s path : Bytes) (ii sc : Bool
   congr 1
   cases w; simp_all
 
+
+/-! ### both values of strip_comments on plain trees (C18) -/
+
+
+/-- a `Comment` node (one token): copied, or with strip_comments replaced by one separator byte -/
+theorem walk_enter_cm' (C : Cfg) (fuel : Nat) (inp : Input) (s path : Bytes) (ii sc : Bool) (rd id : Nat) (evs : List Event)
+    (w : WState) (o l n : Nat) (hK : KindsOK C.K) (hq : Quiet w) :
+    walk C (fuel + 1) inp s path ii sc rd id (.enter (.node C.K.comment [.leaf o l n]) :: evs) w =
+      walk C fuel inp s path ii sc rd id evs { w with out := w.out.push (commentEmit sc (bytesOf inp o l)) (some (path, ⟨o, o + l⟩)) } := by
+  obtain ⟨h1, h2, h3, h4⟩ := hq
+  have hlt : C.K.comment % 2048 = C.K.comment := Nat.mod_eq_of_lt hK.cm_lt
+  have k1 : (C.K.comment == C.K.sdStringLiteral) = false := by
+    have := hK.ss_ge; have := hK.cm_lt; simp; omega
+  have k2 : (C.K.comment == C.K.sdEscapedIdentifier) = false := by
+    have := hK.se_ge; have := hK.cm_lt; simp; omega
+  conv => lhs; unfold walk
+  simp only [skipStep, h3, List.contains_nil, h1, h4, lineStep, enterStep, armComment, baseKind_node, kind_node, hlt, locOf_single,
+    beq_self_eq_true, Bool.false_eq_true, if_false, if_true, hK.cm_nd, hK.cm_cd, hK.cm_kept, hK.cm_undef, hK.cm_undefall, hK.cm_ifdef,
+    hK.cm_ifndef, hK.cm_ws, k1, k2, Bool.or_self]
+
+/-- what one plain source description contributes to the output -/
+def emitSD (K : PpKinds) (sc : Bool) (inp : Input) (path : Bytes) (out : POut) (t : Tree) : POut :=
+  match t with
+  | .node _ [.node ck [.leaf o l _]] =>
+    out.push (if ck == K.comment then commentEmit sc (bytesOf inp o l) else bytesOf inp o l) (some (path, ⟨o, o + l⟩))
+  | _ => out
+
+def emitAll (K : PpKinds) (sc : Bool) (inp : Input) (path : Bytes) (out : POut) (sds : List Tree) : POut :=
+  sds.foldl (emitSD K sc inp path) out
+
+theorem walk_plainSD' (C : Cfg) (hK : KindsOK C.K) (hne : C.K.comment ≠ C.K.sdNotDirective) (hsl : C.K.comment ≠ C.K.stringLiteral)
+    (hei : C.K.comment ≠ C.K.escapedIdentifier)
+    (fuel : Nat) (inp : Input) (s path : Bytes) (ii sc : Bool) (rd id : Nat)
+    (evs : List Event) (w : WState) (t : Tree) (ht : PlainSD C.K t) (hq : Quiet w) :
+    ∃ li, walk C (fuel + 6) inp s path ii sc rd id (events t ++ evs) w =
+      walk C fuel inp s path ii sc rd id evs { w with out := emitSD C.K sc inp path w.out t, lastItemLine := li } := by
+  cases ht with
+  | nd k o l n hm h1 h2 =>
+    have hik : inertKind C.K (Tree.node k [.node C.K.sdNotDirective [.leaf o l n]]).baseKind = true := by
+      rw [baseKind_node, hm]; exact hK.sd_inert
+    have hi : inert C.K (.node k [.node C.K.sdNotDirective [.leaf o l n]]) = true := inert_mk _ _ hik h1 h2
+    have hc : (C.K.sdNotDirective == C.K.comment) = false := by simp; exact fun h => hne h.symm
+    simp only [events, eventsL, List.append_nil, List.cons_append, List.nil_append, List.append_assoc, emitSD, hc, Bool.false_eq_true, if_false]
+    rw [walk_enter_inert C _ inp s path ii sc rd id _ w _ hi hq]
+    rw [walk_enter_nd C _ inp s path ii sc rd id _ w o l n hK hq]
+    have hq1 := quiet_out hq (w.out.push (bytesOf inp o l) (some (path, ⟨o, o + l⟩))) w.lastItemLine
+    rw [walk_enter_inert C _ inp s path ii sc rd id _ _ _ (inert_leaf C.K hK o l n) hq1]
+    rw [walk_leave_inertK C _ inp s path ii sc rd id _ _ _ (inertK_leaf C.K hK o l n) hq1]
+    obtain ⟨li, hli⟩ := walk_leave_nd C (fuel + 1) inp s path ii sc rd id (Event.leave (Tree.node k [.node C.K.sdNotDirective [.leaf o l n]]) :: evs) _ o l n hK hq1
+    rw [hli]
+    refine ⟨li, ?_⟩
+    rw [walk_leave_inertK C _ inp s path ii sc rd id _ _ _ hik (quiet_out hq _ li)]
+  | cm k o l n hm h1 h2 =>
+    have hik : inertKind C.K (Tree.node k [.node C.K.comment [.leaf o l n]]).baseKind = true := by
+      rw [baseKind_node, hm]; exact hK.sd_inert
+    have hi : inert C.K (.node k [.node C.K.comment [.leaf o l n]]) = true := inert_mk _ _ hik h1 h2
+    simp only [events, eventsL, List.append_nil, List.cons_append, List.nil_append, List.append_assoc, emitSD, beq_self_eq_true, if_true]
+    rw [walk_enter_inert C _ inp s path ii sc rd id _ w _ hi hq]
+    rw [walk_enter_cm' C _ inp s path ii sc rd id _ w o l n hK hq]
+    have hq1 := quiet_out hq (w.out.push (commentEmit sc (bytesOf inp o l)) (some (path, ⟨o, o + l⟩))) w.lastItemLine
+    rw [walk_enter_inert C _ inp s path ii sc rd id _ _ _ (inert_leaf C.K hK o l n) hq1]
+    rw [walk_leave_inertK C _ inp s path ii sc rd id _ _ _ (inertK_leaf C.K hK o l n) hq1]
+    rw [walk_leave_cm C _ inp s path ii sc rd id _ _ _ hK hq1]
+    rw [walk_leave_inertK C _ inp s path ii sc rd id _ _ _ hik hq1]
+    exact ⟨w.lastItemLine, rfl⟩
+  | sl k ck o l n hk hck =>
+    have hm : k % 2048 = C.K.sourceDescription := by rcases hk with rfl | rfl; exact hK.ss_mod; exact hK.se_mod
+    have hik : inertKind C.K (Tree.node k [.node ck [.leaf o l n]]).baseKind = true := by
+      rw [baseKind_node, hm]; exact hK.sd_inert
+    have hcl : ck < 2048 := by rcases hck with rfl | rfl; exact hK.sl_lt; exact hK.ei_lt
+    have hcm : ck % 2048 = ck := Nat.mod_eq_of_lt hcl
+    have hcik : inertKind C.K (Tree.node ck [.leaf o l n]).baseKind = true := by
+      rw [baseKind_node, hcm]; rcases hck with rfl | rfl; exact hK.sl_inert; exact hK.ei_inert
+    have hci : inert C.K (.node ck [.leaf o l n]) = true :=
+      inert_mk _ _ hcik (by have := hK.ss_ge; rw [kind_node]; omega) (by have := hK.se_ge; rw [kind_node]; omega)
+    have hc : (ck == C.K.comment) = false := by
+      simp; rcases hck with rfl | rfl; exact fun h => hsl h.symm; exact fun h => hei h.symm
+    simp only [events, eventsL, List.append_nil, List.cons_append, List.nil_append, List.append_assoc, emitSD, hc, Bool.false_eq_true, if_false]
+    rw [walk_enter_sl C _ inp s path ii sc rd id _ w k ck o l n hk hK hq]
+    have hq1 := quiet_out hq (w.out.push (bytesOf inp o l) (some (path, ⟨o, o + l⟩))) w.lastItemLine
+    rw [walk_enter_inert C _ inp s path ii sc rd id _ _ _ hci hq1]
+    rw [walk_enter_inert C _ inp s path ii sc rd id _ _ _ (inert_leaf C.K hK o l n) hq1]
+    rw [walk_leave_inertK C _ inp s path ii sc rd id _ _ _ (inertK_leaf C.K hK o l n) hq1]
+    rw [walk_leave_inertK C _ inp s path ii sc rd id _ _ _ hcik hq1]
+    rw [walk_leave_inertK C _ inp s path ii sc rd id _ _ _ hik hq1]
+    exact ⟨w.lastItemLine, rfl⟩
+
+theorem walk_plainL' (C : Cfg) (hK : KindsOK C.K) (hne : C.K.comment ≠ C.K.sdNotDirective) (hsl : C.K.comment ≠ C.K.stringLiteral)
+    (hei : C.K.comment ≠ C.K.escapedIdentifier) (fuel : Nat) (inp : Input) (s path : Bytes) (ii sc : Bool) (rd id : Nat)
+    (evs : List Event) : ∀ (sds : List Tree) (w : WState), (∀ t ∈ sds, PlainSD C.K t) → Quiet w →
+    ∃ li, walk C (fuel + 6 * sds.length) inp s path ii sc rd id (eventsL sds ++ evs) w =
+      walk C fuel inp s path ii sc rd id evs { w with out := emitAll C.K sc inp path w.out sds, lastItemLine := li } := by
+  intro sds
+  induction sds with
+  | nil => intro w _ _; exact ⟨w.lastItemLine, by simp [eventsL, emitAll]⟩
+  | cons t ts ih =>
+    intro w hp hq
+    have e1 : fuel + 6 * (t :: ts).length = (fuel + 6 * ts.length) + 6 := by simp [List.length_cons]; omega
+    obtain ⟨li, h1⟩ := walk_plainSD' C hK hne hsl hei (fuel + 6 * ts.length) inp s path ii sc rd id (eventsL ts ++ evs) w t (hp t (by simp)) hq
+    obtain ⟨li2, h2⟩ := ih { w with out := emitSD C.K sc inp path w.out t, lastItemLine := li }
+      (fun t' ht' => hp t' (by simp [ht'])) (quiet_out hq _ li)
+    refine ⟨li2, ?_⟩
+    rw [e1]
+    simp only [eventsL, List.append_assoc]
+    rw [h1, h2]
+    simp only [emitAll, List.foldl_cons]
+
+/-- **strip_comments removes comments and nothing else (directive-free, D4-free trees).** For either value of the flag the event loop
+    returns `emitAll`: every non-comment token verbatim and in order, every comment verbatim (flag off) or replaced by exactly one
+    separator byte (flag on); the define table is untouched -/
+theorem walk_plain_tree' (C : Cfg) (hK : KindsOK C.K) (hne : C.K.comment ≠ C.K.sdNotDirective) (hsl : C.K.comment ≠ C.K.stringLiteral)
+    (hei : C.K.comment ≠ C.K.escapedIdentifier) (f : Nat) (inp : Input) (s path : Bytes) (ii sc : Bool) (rd id : Nat)
+    (kpp : Nat) (sds : List Tree) (hpp : inert C.K (.node kpp sds) = true) (hp : ∀ t ∈ sds, PlainSD C.K t) (w : WState) (hq : Quiet w) :
+    walk C (f + 6 * sds.length + 3) inp s path ii sc rd id (eventsL [.node kpp sds]) w =
+      .ok (emitAll C.K sc inp path w.out sds, w.defines) := by
+  have hik : inertKind C.K (Tree.node kpp sds).baseKind = true := by
+    unfold inert at hpp; unfold inertKind; simp only [Bool.and_eq_true] at hpp; exact hpp.1.1
+  simp only [eventsL, events, List.append_nil]
+  have e1 : f + 6 * sds.length + 3 = ((f + 2) + 6 * sds.length) + 1 := by omega
+  rw [e1, walk_enter_inert C _ inp s path ii sc rd id _ w _ hpp hq]
+  obtain ⟨li, h1⟩ := walk_plainL' C hK hne hsl hei (f + 2) inp s path ii sc rd id [Event.leave (Tree.node kpp sds)] sds w hp hq
+  rw [h1]
+  rw [walk_leave_inertK C _ inp s path ii sc rd id _ _ _ hik (quiet_out hq _ li)]
+  simp [walk]
+
+/-- the two runs differ only in what they emit for comment nodes -/
+theorem emitSD_noncomment (K : PpKinds) (inp : Input) (path : Bytes) (out : POut) (k ck o l n : Nat) (h : ck ≠ K.comment) :
+    emitSD K true inp path out (.node k [.node ck [.leaf o l n]]) = emitSD K false inp path out (.node k [.node ck [.leaf o l n]]) := by
+  have : (ck == K.comment) = false := by simpa using h
+  simp [emitSD, this]
+
+theorem emitSD_comment (K : PpKinds) (inp : Input) (path : Bytes) (out : POut) (k o l n : Nat) :
+    emitSD K true inp path out (.node k [.node K.comment [.leaf o l n]]) =
+      out.push (if (bytesOf inp o l).getLast? == some 10 then [10] else [32]) (some (path, ⟨o, o + l⟩)) := by
+  simp [emitSD, commentEmit]
 end Sv
